@@ -182,6 +182,30 @@ func firstDiff(a, b []byte) string {
 	return fmt.Sprintf("first difference at byte %d (lengths %d / %d)\n  a: …%s\n  b: …%s", i, len(a), len(b), a[lo:ha], b[lo:hb])
 }
 
+// boundarySources: programs whose instruction words, constant / name / local indexes and jump distances
+// sit at and around 255, 256 and 65535-free sizes, where a packed encoding would change width.
+func boundarySources() []string {
+	var out []string
+	for _, n := range []int{254, 255, 256, 257, 300} {
+		var items, consts, names, locals []string
+		for i := 0; i < n; i++ {
+			items = append(items, fmt.Sprint(i%7))
+			consts = append(consts, fmt.Sprintf("%d", 1000+i))
+			names = append(names, fmt.Sprintf("\"k%d\": %d", i, i))
+			locals = append(locals, fmt.Sprintf("v%d := %d", i, i))
+		}
+		out = append(out,
+			"x := ["+strings.Join(items, ", ")+"]\n[len(x), x[0], x["+fmt.Sprint(n-1)+"]]\n",
+			"x := ["+strings.Join(consts, ", ")+"]\n[len(x), x[0], x["+fmt.Sprint(n-1)+"], \"tail\", 2.5]\n",
+			"m := {"+strings.Join(names, ", ")+"}\n[len(m), m[\"k0\"], m[\"k"+fmt.Sprint(n-1)+"\"]]\n",
+			"func f() {\n"+strings.Join(locals, "\n")+"\nreturn v0 + v"+fmt.Sprint(n-1)+"\n}\nf()\n",
+			"x := 0\nif x == 0 {\n"+strings.Repeat("x = x + 1\n", n/4)+"}\nx\n",
+			"x := 0\nfor i := 0; i < 2; i++ {\n"+strings.Repeat("x += i\n", n/5)+"}\nx\n",
+		)
+	}
+	return out
+}
+
 func worker(kind string, data json.RawMessage) any {
 	var c caseData
 	if err := json.Unmarshal(data, &c); err != nil {
@@ -190,10 +214,16 @@ func worker(kind string, data json.RawMessage) any {
 	o := &out{Kinds: map[string]int{}}
 	if c.From == 0 {
 		// fixed sources for shapes the generator does not produce
-		for _, src := range []string{
+		for _, src := range append(boundarySources(), []string{
 			"func __main__(n) { if n <= 0 { return 0 }; return 1 + __main__(n - 1) }\n__main__(3)\n",
 			"func f(a, b=2, c=\"s\", d=1.5, e=true) { return [a, b, c, d, e] }\n[f(1), f(1, 9), 9223372036854775807, -9223372036854775807, 9007199254740993, \"\\u00e9\", 1.0e10]\n",
-		} {
+			// defaults of every kind, used where int and float differ; constants at the edges of their types
+			"func half(x, by=2.0) { return [x / by, type(by), by / 4, 7 / by] }\n[half(1), half(3, 2.0), half(5, 2)]\n",
+			"func g(a=0.0, b=-1.0, c=1e3, d=100.0, e=-0.0) { return [type(a), type(b), type(c), type(d), 1 / (b + 3), 5 / c, 3 / d, a, e] }\n[g(), g(1), g(1, 2)]\n",
+			"f := func(s=\"\", t=\"2.0\", n=0, m=-1, ok=false, z=3.0) { return [s, t, n, m, ok, 10 / z, type(z), type(n)] }\n[f(), f(\"x\")]\n",
+			"x := [2.0, 1.0, 0.0, -3.0, 1e0, 4.0e0]\ny := x.map(func(v) { return [type(v), 7 / (v + 10)] })\n[y, {\"k\": 6.0}, 9 / 3.0, type(6.0)]\n",
+			"func outer(p=5.0) { inner := func(q=2.0, r=8) { return [p / q, r / q, type(q), type(r)] }; return inner() }\nouter()\n",
+		}...) {
 			o.Programs++
 			sig, detail, st := checkOne(src, nil, nil)
 			if st.executed {
